@@ -207,16 +207,23 @@ class CommHandler:
         return frame_decoded
 
     def _drop_all_frames(self) -> None:
+        # a device that keeps sending must not hold us here forever
+        limit = 256
         cntr = 4
-        while cntr > 0:
+        while cntr > 0 and limit > 0:
             ret = self._get_frame(timeout=0.1)
             if not ret:  # pragma: no cover
                 cntr -= 1
+            else:
+                limit -= 1
+        limit = 256
         cntr = 4
-        while cntr > 0:
+        while cntr > 0 and limit > 0:
             ret = self._get_stream_frame(timeout=0.1)
             if not ret:  # pragma: no cover
                 cntr -= 1
+            else:  # pragma: no cover
+                limit -= 1
 
     def _devinfo_get(self) -> Device | None:
         """Get nxslib dev info."""
